@@ -26,6 +26,15 @@ func init() {
 		"(encoding/binary.bigEndian).AppendUint16": beAppend(2),
 		"(encoding/binary.bigEndian).AppendUint32": beAppend(4),
 		"(encoding/binary.bigEndian).AppendUint64": beAppend(8),
+		"(encoding/binary.littleEndian).Uint16":       leUint(2),
+		"(encoding/binary.littleEndian).Uint32":       leUint(4),
+		"(encoding/binary.littleEndian).Uint64":       leUint(8),
+		"(encoding/binary.littleEndian).PutUint16":    lePut(2),
+		"(encoding/binary.littleEndian).PutUint32":    lePut(4),
+		"(encoding/binary.littleEndian).PutUint64":    lePut(8),
+		"(encoding/binary.littleEndian).AppendUint16": leAppend(2),
+		"(encoding/binary.littleEndian).AppendUint32": leAppend(4),
+		"(encoding/binary.littleEndian).AppendUint64": leAppend(8),
 		"(*bytes.Buffer).Write":                    bufWrite,
 		"(*bytes.Buffer).WriteByte":                bufWriteByte,
 		"(*bytes.Buffer).WriteString":              bufWriteString,
@@ -100,27 +109,41 @@ func need(f *Frame, st *state, ins ssa.Instruction, what string, cond string) {
 	f.u.oblige(f, st, "pre", f.ordLabel(ins, "call")+" "+what, ins.Pos(), cond)
 }
 
-func beUint(n int) libModel {
+func beUint(n int) libModel { return endianUint(n, false) }
+func leUint(n int) libModel { return endianUint(n, true) }
+
+func endianUint(n int, little bool) libModel {
 	return func(f *Frame, st *state, callee *ssa.Function, args []Val, ins ssa.Instruction, resT types.Type) *Val {
 		b := args[len(args)-1]
 		need(f, st, ins, fmt.Sprintf("BigEndian.Uint%d:len", n*8), le(intLit(int64(n)), b.S[1]))
 		arr := f.u.arr(st.mem, byteSite, SBV(8))
 		var parts []string
 		for i := 0; i < n; i++ {
-			parts = append(parts, sel(arr, add(b.S[0], intLit(int64(i)))))
+			k := i
+			if little {
+				k = n - 1 - i
+			}
+			parts = append(parts, sel(arr, add(b.S[0], intLit(int64(k)))))
 		}
 		return &Val{T: resT, S: []string{app("concat", parts...)}}
 	}
 }
 
-func bePut(n int) libModel {
+func bePut(n int) libModel { return endianPut(n, false) }
+func lePut(n int) libModel { return endianPut(n, true) }
+
+func endianPut(n int, little bool) libModel {
 	return func(f *Frame, st *state, callee *ssa.Function, args []Val, ins ssa.Instruction, resT types.Type) *Val {
 		b, v := args[len(args)-2], args[len(args)-1]
 		need(f, st, ins, fmt.Sprintf("BigEndian.PutUint%d:len", n*8), le(intLit(int64(n)), b.S[1]))
 		arr := f.u.arr(st.mem, byteSite, SBV(8))
 		for i := 0; i < n; i++ {
 			hi := (n-i)*8 - 1
-			arr = store(arr, add(b.S[0], intLit(int64(i))), app(fmt.Sprintf("(_ extract %d %d)", hi, hi-7), v.S[0]))
+			k := i
+			if little {
+				k = n - 1 - i
+			}
+			arr = store(arr, add(b.S[0], intLit(int64(k))), app(fmt.Sprintf("(_ extract %d %d)", hi, hi-7), v.S[0]))
 		}
 		f.u.setArr(st.mem, byteSite, SBV(8), arr)
 		return nil
@@ -139,12 +162,18 @@ func (u *Unit) tempBytes(st *state, bs []string) Val {
 	return Val{T: types.NewSlice(types.Typ[types.Uint8]), S: []string{p, n, n}}
 }
 
-func beAppend(n int) libModel {
+func beAppend(n int) libModel { return endianAppend(n, false) }
+func leAppend(n int) libModel { return endianAppend(n, true) }
+
+func endianAppend(n int, little bool) libModel {
 	return func(f *Frame, st *state, callee *ssa.Function, args []Val, ins ssa.Instruction, resT types.Type) *Val {
 		b, v := args[len(args)-2], args[len(args)-1]
 		var bs []string
 		for i := 0; i < n; i++ {
 			hi := (n-i)*8 - 1
+			if little {
+				hi = (i+1)*8 - 1
+			}
 			bs = append(bs, app(fmt.Sprintf("(_ extract %d %d)", hi, hi-7), v.S[0]))
 		}
 		tmp := f.u.tempBytes(st, bs)
